@@ -1572,3 +1572,50 @@ def dominating_atoms(facts, fn, site):
             continue
         atoms |= predicate_atoms(sw)
     return atoms
+
+
+def expand_atoms(facts, atoms, keep, depth=2):
+    """replace 'call:<helper>' atoms that are not in `keep` by the atoms the (small, bool-returning) helper itself
+    tests or returns — so a condition moved into a helper function is still recognised"""
+    out = set()
+    for a in atoms:
+        if not a.startswith('call:') or a in keep or depth <= 0:
+            out.add(a)
+            continue
+        short_name = a[5:]
+        cands = [f for n, f in facts.fns.items() if n.rsplit('::', 1)[-1] == short_name and f.ret == 'bool' and 'closure' not in n and len(f.blocks) <= 40]
+        if len(cands) != 1:
+            out.add(a)
+            continue
+        f = cands[0]
+        inner = set()
+        for bi, sw in all_switches(facts, f).items():
+            if sw is not None:
+                inner |= predicate_atoms(sw)
+        for bi, si, pl, rv, ln in f.stmts():
+            if pl == [0]:
+                e = f.expr_of_rvalue(rv)
+
+                class _S:
+                    pass
+                s = _S()
+                s.subject = e
+                s.kind = 'bool'
+                s.labels = {}
+                inner |= predicate_atoms(s)
+        for bi, t in f.calls():
+            if t['d'] == [0]:
+                if t['fn'].startswith(('proto::', 'frame::', 'codec::', 'hpack::', 'client::', 'server::', 'share::')):
+                    inner.add('call:' + t['fn'].rsplit('::', 1)[-1])
+                else:
+                    for x in t['a'][:1]:
+                        s = type('S', (), {})()
+                        s.subject = f.expr_of_op(x)
+                        s.kind = 'bool'
+                        s.labels = {}
+                        inner |= predicate_atoms(s)
+        if not inner:
+            out.add(a)
+        else:
+            out |= expand_atoms(facts, inner, keep, depth - 1)
+    return out
